@@ -32,6 +32,39 @@ pub enum Node {
     Number(Complex<f64>),
 }
 
+/// ln(1 + w) without forming 1 + w, which rounds a small w away
+fn ln_1p(w: Complex<f64>) -> Complex<f64> {
+    Complex::new(
+        0.5 * (2.0 * w.re + w.norm_sqr()).ln_1p(),
+        w.im.atan2(1.0 + w.re),
+    )
+}
+
+/// asinh is odd, and ln(z + sqrt(z^2 + 1)) cancels catastrophically for Re z < 0;
+/// for small |z| the sum is 1 + z + z^2/(1 + sqrt(z^2 + 1)) and z must not be rounded away against the 1;
+/// for huge |z| the square overflows although the result, ln(2z), is small
+fn asinh(z: Complex<f64>) -> Complex<f64> {
+    if z.re < 0.0 {
+        -asinh(-z)
+    } else if z.norm() < 0.5 {
+        let zz = z * z;
+        ln_1p(z + zz / (1.0 + (zz + 1.0).sqrt()))
+    } else if z.norm() > 1e10 {
+        z.ln() + std::f64::consts::LN_2
+    } else {
+        z.asinh()
+    }
+}
+
+/// atanh z = (ln(1 + z) - ln(1 - z)) / 2, with the logarithms taken accurately for small |z|
+fn atanh(z: Complex<f64>) -> Complex<f64> {
+    if z.norm() < 0.5 {
+        (ln_1p(z) - ln_1p(-z)) / 2.0
+    } else {
+        z.atanh()
+    }
+}
+
 pub fn eval(expr: Node) -> Result<Complex<f64>, Box<dyn error::Error>> {
     #[cfg(feature = "verif_hooks")]
     crate::verif_hooks::tick(2);
@@ -52,20 +85,30 @@ pub fn eval(expr: Node) -> Result<Complex<f64>, Box<dyn error::Error>> {
         Sinh(sub_expr) => Ok(eval(*sub_expr)?.sinh()),
         Cosh(sub_expr) => Ok(eval(*sub_expr)?.cosh()),
         Tanh(sub_expr) => Ok(eval(*sub_expr)?.tanh()),
-        Asin(sub_expr) => Ok(eval(*sub_expr)?.asin()),
-        Acos(sub_expr) => Ok(eval(*sub_expr)?.acos()),
-        Atan(sub_expr) => Ok(eval(*sub_expr)?.atan()),
-        Arsinh(sub_expr) => {
-            // asinh is odd; ln(z + sqrt(z^2 + 1)) cancels catastrophically for Re z < 0
+        Asin(sub_expr) => {
+            // asin z = -i asinh(iz)
             let z = eval(*sub_expr)?;
-            if z.re < 0.0 {
-                Ok(-((-z).asinh()))
+            if z.norm() < 0.5 {
+                let w = asinh(Complex::new(-z.im, z.re));
+                Ok(Complex::new(w.im, -w.re))
             } else {
-                Ok(z.asinh())
+                Ok(z.asin())
             }
         }
+        Acos(sub_expr) => Ok(eval(*sub_expr)?.acos()),
+        Atan(sub_expr) => {
+            // atan z = -i atanh(iz)
+            let z = eval(*sub_expr)?;
+            if z.norm() < 0.5 {
+                let w = atanh(Complex::new(-z.im, z.re));
+                Ok(Complex::new(w.im, -w.re))
+            } else {
+                Ok(z.atan())
+            }
+        }
+        Arsinh(sub_expr) => Ok(asinh(eval(*sub_expr)?)),
         Arcosh(sub_expr) => Ok(eval(*sub_expr)?.acosh()),
-        Artanh(sub_expr) => Ok(eval(*sub_expr)?.atanh()),
+        Artanh(sub_expr) => Ok(atanh(eval(*sub_expr)?)),
         Sqrt(sub_expr) => Ok(eval(*sub_expr)?.sqrt()),
         Ln(sub_expr) => Ok(eval(*sub_expr)?.ln()),
         Lb(sub_expr) => Ok(eval(*sub_expr)?.log(2.0)),
